@@ -59,3 +59,7 @@ Example hpow_instance :
 Proof.
   apply (qasm_rule_hpow O16 K16Laws); [exact units_generic | apply units_pi8 | apply units_pi8].
 Qed.
+(* the meaning of the "odd exponent" class at the table's keys e = 1, -1, 3: r = q^k has r*r = -1 *)
+Example odd_class_units :
+  forallb (fun k => k16_eqb (kmul O16 (kpowZ O16 zeta16 zeta16c k) (kpowZ O16 zeta16 zeta16c k)) (kopp O16 (k1 O16))) [4; -4; 12; 20]%Z = true.
+Proof. vm_compute. reflexivity. Qed.
